@@ -87,7 +87,7 @@ def cases(tier):
             out.append({'fam': 'M8', 'cells': list(cells), 'configs': 'short', 'spacings': [0.001, 86400.0]})
     bsc = (_deckfam.two_deck_scenes('quick', rich=False)[::5] + _deckfam.two_ceilo_scenes('quick')[::3] + _deckfam.chain_scenes('quick')[::4]
            + _deckfam.split_scenes('quick')[::2] + _deckfam.overlap_scenes('quick')[::2] + _deckfam.degenerate_scenes('quick')
-           + _deckfam.w119_scenes())
+           + _deckfam.w119_scenes() + _deckfam.single_survivor_scenes() + _deckfam.disordered_scenes())
     for name, spec in bsc:
         dd = d if name.startswith(('split', 'w119', 'overlap', 'single', 'two-v')) else 1
         nparts = 12 if dd == 2 else 1
